@@ -321,7 +321,9 @@ def intendedHdr (h : Hdr) (o : Opts) : Hdr :=
     opts := h.opts.take h.nopts ++ hdr0.opts.drop (h.opts.take h.nopts).length
     vbtol := if h.nopts ≥ 2 ∧ h.opts[1]? = some (3 : Int) then h.vbtol else Dbl.zero
     probName := hdr0.probName
-    arith := if o.binary then h.arith else 0 }
+    arith := if o.binary then h.arith else 0
+    -- the SNL2006 fields are not part of the header the reader hands over (and are outside the feeder contract)
+    nrandv := 0, nrandce := 0, nrandc := 0, nrando := 0, nrandcalls := 0, nstages := 0 }
 
 def intBnd (isCon : Bool) (i : Nat) (L U : Dbl) (k cvar : Nat) : Ev :=
   if k = 0 then (if isCon then Ev.cb i L U else Ev.vb i L U) else Ev.compl i cvar k
